@@ -380,3 +380,156 @@ func GraphFromEdges(names []string, edges [][2]int) Graph {
 	}
 	return g
 }
+
+// CopySpec makes a deep copy of a pipeline spec
+func CopySpec(s PipeSpec) PipeSpec {
+	g := Graph{Names: append([]string(nil), s.Graph.Names...), Deps: map[string][]string{}, Cyclic: s.Graph.Cyclic}
+	for k, v := range s.Graph.Deps {
+		g.Deps[k] = append([]string(nil), v...)
+	}
+	return PipeSpec{Name: s.Name, Def: CopyPipeDef(s.Def), Graph: g}
+}
+
+func syncGraph(s *PipeSpec) {
+	g := Graph{Deps: map[string][]string{}}
+	for n := range s.Def.Tasks {
+		g.Names = append(g.Names, n)
+	}
+	sort.Strings(g.Names)
+	for n, t := range s.Def.Tasks {
+		if len(t.DependsOn) > 0 {
+			g.Deps[n] = append([]string(nil), t.DependsOn...)
+		}
+	}
+	g.Cyclic = IsCyclic(g)
+	s.Graph = g
+}
+
+// MutateSpec applies one random mutation operator to a copy of the spec (used for definition reloads)
+func MutateSpec(r *rand.Rand, in PipeSpec) (PipeSpec, string) {
+	s := CopySpec(in)
+	names := append([]string(nil), s.Graph.Names...)
+	sort.Strings(names)
+	pick := func() string { return names[r.Intn(len(names))] }
+	desc := ""
+	switch r.Intn(13) {
+	case 0: // add a task depending on an existing one
+		n := fmt.Sprintf("added%d", r.Intn(1000))
+		td := definition.TaskDef{Script: []string{"echo " + n}}
+		if r.Intn(2) == 0 {
+			td.DependsOn = []string{pick()}
+		}
+		s.Def.Tasks[n] = td
+		desc = "add task " + n
+	case 1: // remove a task (and references to it)
+		if len(names) > 1 {
+			n := pick()
+			delete(s.Def.Tasks, n)
+			for k, t := range s.Def.Tasks {
+				var d []string
+				for _, x := range t.DependsOn {
+					if x != n {
+						d = append(d, x)
+					}
+				}
+				t.DependsOn = d
+				s.Def.Tasks[k] = t
+			}
+			desc = "remove task " + n
+		} else {
+			desc = "noop"
+		}
+	case 2: // rename a task
+		n := pick()
+		nn := n + "_r"
+		t := s.Def.Tasks[n]
+		delete(s.Def.Tasks, n)
+		s.Def.Tasks[nn] = t
+		for k, t := range s.Def.Tasks {
+			for i, x := range t.DependsOn {
+				if x == n {
+					t.DependsOn[i] = nn
+				}
+			}
+			s.Def.Tasks[k] = t
+		}
+		desc = "rename task " + n
+	case 3: // rewire: drop all dependencies of one task / add one
+		n := pick()
+		t := s.Def.Tasks[n]
+		if len(t.DependsOn) > 0 {
+			t.DependsOn = nil
+			desc = "drop deps of " + n
+		} else if len(names) > 1 {
+			o := pick()
+			if o != n {
+				t.DependsOn = []string{o}
+			}
+			desc = "add dep to " + n
+		}
+		s.Def.Tasks[n] = t
+	case 4: // change a script line
+		n := pick()
+		t := s.Def.Tasks[n]
+		t.Script = []string{fmt.Sprintf("echo changed-%d", r.Intn(100000))}
+		s.Def.Tasks[n] = t
+		desc = "change script of " + n
+	case 5: // task env
+		n := pick()
+		t := s.Def.Tasks[n]
+		t.Env = map[string]string{"TASK_" + n: fmt.Sprint(r.Intn(1000)), "NEWVAR": "x"}
+		s.Def.Tasks[n] = t
+		desc = "change env of " + n
+	case 6: // pipeline env
+		s.Def.Env = map[string]string{"PIPE_" + s.Name: fmt.Sprint(r.Intn(1000)), "NEWPIPE": "y"}
+		desc = "change pipeline env"
+	case 7:
+		n := pick()
+		t := s.Def.Tasks[n]
+		t.AllowFailure = !t.AllowFailure
+		s.Def.Tasks[n] = t
+		desc = "toggle allow_failure of " + n
+	case 8: // delay 0 <-> long
+		if s.Def.StartDelay > 0 {
+			s.Def.StartDelay = 0
+			desc = "remove start_delay"
+		} else {
+			s.Def.StartDelay = LongDelay
+			if s.Def.QueueLimit != nil && *s.Def.QueueLimit == 0 {
+				s.Def.QueueLimit = nil
+			}
+			desc = "introduce start_delay"
+		}
+	case 9:
+		if s.Def.Concurrency > 1 && r.Intn(2) == 0 {
+			s.Def.Concurrency--
+		} else {
+			s.Def.Concurrency++
+		}
+		desc = fmt.Sprintf("concurrency -> %d", s.Def.Concurrency)
+	case 10:
+		l := r.Intn(4)
+		if l == 0 && s.Def.StartDelay > 0 {
+			l = 1
+		}
+		if r.Intn(4) == 0 {
+			s.Def.QueueLimit = nil
+			desc = "queue_limit -> nil"
+		} else {
+			s.Def.QueueLimit = intPtr(l)
+			desc = fmt.Sprintf("queue_limit -> %d", l)
+		}
+	case 11:
+		s.Def.QueueStrategy = 1 - s.Def.QueueStrategy
+		desc = "toggle queue_strategy"
+	default:
+		s.Def.RetentionCount = r.Intn(5)
+		desc = "retention_count"
+	}
+	syncGraph(&s)
+	if s.Graph.Cyclic && !in.Graph.Cyclic {
+		// keep reload mutations acyclic (cycles are C02's subject)
+		return CopySpec(in), "noop"
+	}
+	return s, desc
+}
